@@ -10,6 +10,7 @@ CONSTANTS
   LoopForever = TRUE
   FastPathChecksAtomicQ = TRUE
   Sleeper = TRUE
+  SRun = FALSE
 INVARIANT Safety
 PROPERTIES AcceptedLeadsToDispatch SentLeadsToSeen
 CHECK_DEADLOCK FALSE
